@@ -675,9 +675,27 @@ class Gen:
                 for (k1, a), (k2, b) in zip(self.vec_kinds(x), self.vec_kinds(y)):
                     yield self.mk(entry, tag, k1, lambda: fn, lambda a=a, b=b: {'real': a, 'synth': b, 'title': None},
                                   ['real', 'synth', 'title'])
+                for nr, ns in ((25, 0), (25, 1), (0, 20), (1, 20)):       # boundary table sizes
+                    yield self.mk(entry, tag, f'rows{nr}/{ns}/Series', lambda: fn,
+                                  lambda nr=nr, ns=ns: {'real': pd.Series(x[:nr], name='v'),
+                                                        'synth': pd.Series(y[:ns], name='v'), 'title': None},
+                                  ['real', 'synth', 'title'])
             else:
                 dim = 2 if '2d' in fname else 3
                 names = ['a', 'b', 'c', 'd']
+                for nr, ns in ((9, 0), (9, 1), (0, 7), (1, 7)):           # boundary table sizes
+                    real, synth = self.table(9, names[:dim]).iloc[:nr], self.table(7, names[:dim]).iloc[:ns]
+                    if fname.startswith('scatter'):
+                        if ns:
+                            continue
+                        yield self.mk(entry, tag, f'rows{nr}/list', lambda: fn,
+                                      lambda real=real: {'data': real, 'columns': names[:dim], 'title': None},
+                                      ['data', 'columns', 'title'])
+                    else:
+                        yield self.mk(entry, tag, f'rows{nr}/{ns}/list', lambda: fn,
+                                      lambda real=real, synth=synth: {'real': real, 'synth': synth,
+                                                                      'columns': names[:dim], 'title': None},
+                                      ['real', 'synth', 'columns', 'title'])
                 for width in (dim, dim + 1):
                     real, synth = self.table(9, names[:width]), self.table(7, names[:width])
                     reqs = [('none', None), ('list', names[:dim]), ('TList', TList(names[:dim])),
@@ -1200,6 +1218,26 @@ def plots(ctx, lean):
             if not ok and bad is None:
                 bad = {'builder': fname, 'columns': cols, 'request': req, 'index_schemes': schemes, 'real': real,
                        'synth': synth, 'figure': got, 'model': want}
+        # boundary table sizes: zero-row and one-row tables on either side (a label without rows has no trace;
+        # the rows of the other table must stay under their own label)
+        sizes = [(0, 0), (0, 1), (1, 0), (1, 1), (0, 3), (3, 0), (1, 4), (4, 1)] if fname.startswith('compare') \
+            else [(0, 0), (1, 0), (2, 0)]
+        for k, (nr, ns) in enumerate(sizes):
+            for with_cols in (False, True):
+                width = dim + 1 if with_cols else dim
+                cols = names[:width]
+                real = [[cell() for _ in cols] for _ in range(nr)]
+                synth = [[cell() for _ in cols] for _ in range(ns)]
+                req = rng.sample(cols, dim) if with_cols else None
+                schemes = (rng.choice(INDEX_SCHEMES), rng.choice(INDEX_SCHEMES))
+                ok, got, want = plot_case(lean, fname, cols, real, synth, req, bool(k % 2), schemes, rng,
+                                          ['float64'] * width)
+                ctx.case((fname, 'sizes', nr, ns, with_cols), nontrivial=True)
+                ctx.count(f'plot-sizes:{nr}/{ns}')
+                ctx.count(f'plot:{fname}:{got[0] if got[0] == "ok" else got[1]}')
+                if not ok and bad is None:
+                    bad = {'builder': fname, 'columns': cols, 'request': req, 'rows_real': nr, 'rows_synth': ns,
+                           'index_schemes': schemes, 'real': real, 'synth': synth, 'figure': got, 'model': want}
         # column order: the synthetic frame with the same labels permuted / with an extra column / integer labels,
         # and `columns=` in an order different from the frame's: coordinates are addressed BY LABEL
         applicable = COLUMN_SCHEMES if fname.startswith('compare') else ('same', 'int-labels')
@@ -1340,8 +1378,13 @@ def plot_oracle(ctx, n):
             schemes = (INDEX_SCHEMES[k % len(INDEX_SCHEMES)], rng.choice(INDEX_SCHEMES))
             if k >= len(INDEX_SCHEMES):
                 schemes = (rng.choice(INDEX_SCHEMES), INDEX_SCHEMES[k % len(INDEX_SCHEMES)])
-            rrows, dtypes = scaled_rows(rng, rng.randint(2, 9), vschemes)
-            srows, _ = scaled_rows(rng, rng.randint(2, 7), vschemes)
+            sizes = [(0, 0), (1, 0), (0, 1), (1, 1), (3, 0), (0, 3), (4, 1), (1, 4)]
+            if k < len(sizes):           # boundary table sizes first (zero / one row on either side)
+                nr, ns = sizes[k]
+            else:
+                nr, ns = rng.randint(2, 9), rng.randint(2, 7)
+            rrows, dtypes = scaled_rows(rng, nr, vschemes)
+            srows, _ = scaled_rows(rng, ns, vschemes)
             applicable = COLUMN_SCHEMES if fname.startswith('compare') else ('same', 'int-labels')
             cs = applicable[(k // 2) % len(applicable)]
             real, synth, labels = column_frames(cols, rrows, srows, schemes, rng, dtypes, cs,
@@ -1375,13 +1418,15 @@ def plot_oracle(ctx, n):
             want = {'Real': frame_points(real, used)}
             if fname.startswith('compare'):
                 want['Synthetic'] = frame_points(synth, used)
+            want = {l: pts for l, pts in want.items() if pts}      # a label without rows has no trace
             if tr != want or len(fig.data) != len(want):
                 found += 1
-                rounded = set(tr) == set(want) and all(approx_same(tr[l], want[l]) for l in want)
-                shown = {}
-                for l in want:
-                    extra = [p for p in tr.get(l, []) if p not in want[l]][:3]
-                    missing = [p for p in want[l] if p not in tr.get(l, [])][:3]
+                rounded = bool(want) and set(tr) == set(want) and all(approx_same(tr[l], want[l]) for l in want)
+                shown = {'rows_real': len(rrows), 'rows_synth': len(srows),
+                         'traces': {l: len(p) for l, p in tr.items()}}
+                for l in sorted(set(want) | set(tr)):
+                    extra = [p for p in tr.get(l, []) if p not in want.get(l, [])][:3]
+                    missing = [p for p in want.get(l, []) if p not in tr.get(l, [])][:3]
                     shown[l] = {'plotted_but_not_given': [[float.fromhex(c[1]) if c[0] == 'f' else c[1] for c in p]
                                                           for p in extra],
                                 'given_but_not_plotted': [[float.fromhex(c[1]) if c[0] == 'f' else c[1] for c in p]
